@@ -28,6 +28,12 @@ def gen_case(rng, idx):
         data = b'\x1f\x8b' + G.gen_log(rng, rng.randint(1, 6))
     elif kind < 0.22:
         data = G.gen_log(rng, 5, final_newline=False)
+    elif kind < 0.34:
+        # carriage returns: CRLF line ends and lone CRs inside lines
+        # (progress-bar output) - only LF ends a line
+        data = G.gen_log(rng, rng.choice([4, 20, 60]))
+        data = data.replace(b'\n', b'\r\n') if rng.random() < 0.5 else \
+            data.replace(b' alpha', b'\ralpha').replace(b' x', b'\rx')
     else:
         data = G.gen_log(rng, rng.choice([1, 2, 8, 30, 90, 200]),
                          undated_p=rng.choice([0.0, 0.2, 0.4]),
@@ -60,6 +66,21 @@ def variants(rng, data):
                        'mtime': rng.choice([946684800, None])})]
 
 
+def big_case(rng):
+    """ a line longer than the 1 MiB seek budget, probed by a file-level
+    since constraint: plain and gzip must give up (or not) alike """
+    pre = G.gen_log(rng, 6, undated_p=0.0)
+    data = (pre + b'2022-01-12 00:00:00 ' + b'L' * ((1 << 20) + 5000) + b'\n'
+            + G.gen_log(rng, 5, undated_p=0.0,
+                        t0=G.datetime(2022, 1, 12, 1, 0, 0)))
+    cons = [{'current': '2022-01-12 12:00:00', 'days': 0, 'hours': 24}]
+    defs = [{'kind': 'simple', 'patterns': [r'.+ alpha (\d+)'], 'tag': 's0',
+             'hint': None, 'store': True, 'constraints': []}]
+    run_ = {'global': 0, 'decode_errors': None, 'max_parallel_tasks': 8,
+            'adds': [[0, 'FILE', True]], 'new_searcher': True}
+    return data, cons, defs, run_
+
+
 def run(chk):
     chk.prove(PROPS)
     chk.coverage['rule'] = (
@@ -75,7 +96,8 @@ def run(chk):
     nontrivial = 0
     try:
         for idx in range(ncases):
-            data, cons, defs, run_ = gen_case(chk.rng, idx)
+            data, cons, defs, run_ = big_case(chk.rng) if idx == 3 \
+                else gen_case(chk.rng, idx)
             outs = {}
             for vname, gz in variants(chk.rng, data):
                 # the SAME path is rewritten with new content for every case
@@ -119,7 +141,7 @@ def run(chk):
                 # the stream that was read (suffix of nl lines)
                 for vname in ('plain', 'gzip', 'multi'):
                     o, size, gz = outs[vname]
-                    if o['exc'] is not None:
+                    if o['exc'] is not None or len(data) > 200000:
                         continue
                     k = 'Plain' if gz is None else 'Gz'
                     cases.append(f"(mkFile {size} {k} {vlib.zl(list(data))},"
